@@ -33,6 +33,8 @@ def upper_layer(rng, base):
             continue
         if x == REQ:
             out[k] = ptree(rng, 1) if rng.random() < 0.8 else {"n": 1}
+            if rng.random() < 0.12:
+                out[k] = None        # an explicit null is a value: it replaces the marker (and is dropped from the output)
         elif isinstance(x, dict) and x:
             sub = upper_layer(rng, x)
             if sub:
@@ -54,7 +56,7 @@ def gen_case(rng):
     layers = [base]
     for _ in range(rng.randint(0, 2)):
         layers.append(upper_layer(rng, layers[0]))
-    fmts = [rng.choice(["yaml", "json", "toml"]) for _ in layers]
+    fmts = [rng.choice(["yaml", "json", "toml"] if "None" not in repr(l) else ["yaml", "json"]) for l in layers]
     return {"layers": layers, "fmts": fmts}
 
 
